@@ -96,6 +96,10 @@ macro_rules! impl_skein {
     };
 }
 impl_skein!(U1, U7, U8, U16, U20, U28, U31, U32, U33, U48, U64, U65, U77, U100, U128, U129, U200, U256, U300);
+// outputs of more than 256 output blocks (the output counter needs a second byte)
+impl_h!(skein_hash::Skein256<U10000>, |s, c| s.verif_set_counter(c as u64), |g| g.verif_counter() as u128);
+impl_h!(skein_hash::Skein512<U32768>, |s, c| s.verif_set_counter(c as u64), |g| g.verif_counter() as u128);
+impl_h!(skein_hash::Skein1024<U65536>, |s, c| s.verif_set_counter(c as u64), |g| g.verif_counter() as u128);
 
 #[derive(Clone)]
 pub struct HashSpec {
@@ -147,6 +151,14 @@ pub fn skein_hashes() -> Vec<HashSpec> {
     sk!(U1 => 1, U7 => 7, U8 => 8, U16 => 16, U20 => 20, U28 => 28, U31 => 31, U32 => 32, U33 => 33, U48 => 48, U64 => 64,
         U65 => 65, U77 => 77, U100 => 100, U128 => 128, U129 => 129, U200 => 200, U256 => 256, U300 => 300);
     v
+}
+
+pub fn skein_large_outputs() -> Vec<HashSpec> {
+    vec![
+        HashSpec { name: "Skein256<10000>".into(), family: Family::Skein, bits: 80_000, state_bits: 256, block: 32, make: mk::<skein_hash::Skein256<U10000>> },
+        HashSpec { name: "Skein512<32768>".into(), family: Family::Skein, bits: 262_144, state_bits: 512, block: 64, make: mk::<skein_hash::Skein512<U32768>> },
+        HashSpec { name: "Skein1024<65536>".into(), family: Family::Skein, bits: 524_288, state_bits: 1024, block: 128, make: mk::<skein_hash::Skein1024<U65536>> },
+    ]
 }
 
 /// The 15 hash types of C08 (+ two Skein instantiations with unusual output sizes).
@@ -350,6 +362,20 @@ pub fn run_c04(ctx: &mut Ctx) {
 }
 pub fn run_c05(ctx: &mut Ctx) {
     run_conformance(ctx, "C05", Family::Skein, 200_000, 2_000_000);
+    // outputs of more than 256 blocks: 10 000 / 32 768 / 65 536 bytes
+    let large = skein_large_outputs();
+    let mut cases = Vec::new();
+    for spec in &large {
+        for (i, len) in [0usize, 1, spec.block, 3 * spec.block + 5].iter().enumerate() {
+            cases.push(ConfCase { hash: spec.name.clone(), msg: Msg { seed: ctx.seed ^ i as u64, len: *len, pat: 0 }, cuts: Vec::new() });
+        }
+    }
+    let l2 = large.clone();
+    ctx.run_list("large-output", cases, |c, i| {
+        i.label("Skein output longer than 256 output blocks");
+        conf_check("C05", &l2, c, i)
+    });
+    ctx.required_classes.push("Skein output longer than 256 output blocks".into());
     ctx.required_classes.push("Skein several output blocks".into());
     ctx.required_classes.push("Skein output not a multiple of 8 bytes".into());
     ctx.required_classes.push("exact multiple of the block size".into());
@@ -686,6 +712,12 @@ pub struct C17Case {
     /// real bytes absorbed after the jump
     pub suffix: u16,
     pub chunks: Vec<u16>,
+    /// 0: finalize; 1: reset instead of finalizing; 2: finalize_reset; 3: finalize_fixed_reset - for 1..3 the
+    /// instance is then reused for a short message and must behave like a new one
+    #[serde(default)]
+    pub reuse: u8,
+    #[serde(default)]
+    pub suffix2: u16,
 }
 
 /// Boundaries (as exponents of two, in the family's counter unit) that the formats allow.
@@ -708,11 +740,12 @@ pub fn c17_strategy(specs: &[HashSpec]) -> BoxedStrategy<C17Case> {
     let names: Vec<String> = specs.iter().map(|s| s.name.clone()).collect();
     let exps: Vec<Vec<u8>> = specs.iter().map(c17_exponents).collect();
     let n = names.len();
-    (0..n, any::<u64>(), gen::pattern(), 0u16..300, any::<u16>(), 1u8..4, 0u8..6, 0u16..900, prop::collection::vec(1u16..400, 0..6))
-        .prop_map(move |(h, seed, pat, prefix, e, mult, before_blocks, suffix, chunks)| {
+    (0..n, any::<u64>(), gen::pattern(), 0u16..300, any::<u16>(), 1u8..4, 0u8..6, 0u16..900, prop::collection::vec(1u16..400, 0..6),
+        (prop_oneof![3 => Just(0u8), 1 => Just(1u8), 1 => Just(2u8), 1 => Just(3u8)], 0u16..300))
+        .prop_map(move |(h, seed, pat, prefix, e, mult, before_blocks, suffix, chunks, (reuse, suffix2))| {
             let ex = &exps[h];
             let exp = ex[gen::idx(e, ex.len())];
-            C17Case { hash: names[h].clone(), seed, pat, prefix, exp, mult, before_blocks, suffix, chunks }
+            C17Case { hash: names[h].clone(), seed, pat, prefix, exp, mult, before_blocks, suffix, chunks, reuse, suffix2 }
         })
         .boxed()
 }
@@ -755,6 +788,7 @@ pub fn c17_check(specs: &[HashSpec], c: &C17Case, info: &mut CaseInfo) -> Result
     let jump_to = boundary.saturating_sub(c.before_blocks as u128 * unit_per_block);
     let prefix = gen::expand(c.seed, c.prefix as usize, c.pat);
     let suffix = gen::expand(c.seed ^ 0xabcdef, c.suffix as usize, c.pat);
+    let suffix2 = gen::expand(c.seed ^ 0x5eed2, c.suffix2 as usize, c.pat);
     let buffered = match spec.family {
         // Skein holds a full block back: buffered = len - processed
         Family::Skein => {
@@ -780,8 +814,22 @@ pub fn c17_check(specs: &[HashSpec], c: &C17Case, info: &mut CaseInfo) -> Result
         let c0 = h.counter();
         feed(&mut |d| h.update(d), &suffix, &c.chunks);
         let c1 = h.counter();
-        (c0, c1, h.finalize_box())
+        match c.reuse {
+            0 => (c0, c1, h.finalize_box(), None),
+            r => {
+                // the instance is recycled after its counter crossed the boundary
+                let first = match r {
+                    1 => { h.reset(); None }
+                    2 => Some(h.finalize_reset()),
+                    _ => Some(h.finalize_fixed_reset()),
+                };
+                h.update(&suffix2);
+                let second = h.finalize_box();
+                (c0, c1, first.unwrap_or_default(), Some((r, second)))
+            }
+        }
     });
+    let want2 = ref_digest(spec, &suffix2);
     // did the absorbed data cross the boundary? (in units, counting what the counter counts at finalisation)
     let end_units = match spec.family {
         Family::Blake => jump_to + (buffered + suffix.len() as u128) * 8,
@@ -795,7 +843,19 @@ pub fn c17_check(specs: &[HashSpec], c: &C17Case, info: &mut CaseInfo) -> Result
     info.nontrivial = crosses;
     match got {
         Err(p) => Err(fail("PANIC", format!("counter placed at {:#x} (boundary {:#x}), {} suffix bytes: {}", set_to, boundary, suffix.len(), p))),
-        Ok((c0, c1, g)) => {
+        Ok((c0, c1, g, again)) => {
+            if let Some((r, second)) = &again {
+                info.label("instance reused after its counter crossed a boundary");
+                if *second != want2 {
+                    return Err(fail("REUSE", format!("after {} following a counter of {:#x}: digest of a {}-byte message differs from a new instance's", ["", "reset", "finalize_reset", "finalize_fixed_reset"][*r as usize], c1, suffix2.len())));
+                }
+                if *r == 1 {
+                    if c1 != want_counter_end {
+                        return Err(fail("COUNTER", format!("counter after absorbing {} bytes from {:#x}: {:#x}, true amount {:#x}", suffix.len(), set_to, c1, want_counter_end)));
+                    }
+                    return Ok(());
+                }
+            }
             if c0 != set_to {
                 return Err(fail("HOOK", format!("counter hook did not read back: set {:#x} got {:#x}", set_to, c0)));
             }
